@@ -139,9 +139,6 @@ theorem prReadReservation_decodes (v : Vals) (hr : InRangeD prReadReservation.re
     exact this ("pr_generation", FieldSpec.bits 1 0) (by simp) kf hkf)]
   rfl
 
-/-- the 8-byte READ RESERVATION / READ KEYS header when nothing follows -/
-def prHeader : Block := ⟨"pr_header", 0, 8, [⟨"pr_generation", 0, 7, 32⟩, ⟨"additional_length", 4, 7, 32⟩]⟩
-
 /-- PERSISTENT RESERVE IN / READ RESERVATION without a reservation (ADDITIONAL LENGTH = 0) -/
 theorem prReadReservation_none_decodes (v : Vals) (hr : InRangeD prHeader.rel v)
     (hal : v "additional_length" = 0) (tr : Bytes) :
